@@ -239,6 +239,25 @@ def run_case(servers, keys, prefix, pooling):
         r = w.call("delete_many", (k for k in keys), noreply=False)
         check_routing(w, "delete_many-generator", keys, P)
         w.call("set_many", {k: value_of(k) for k in keys})
+    # 4e. a multi-key call refused for an illegal key leaves nothing behind: the next call of the same kind
+    #     sends its own keys, each once, and nothing else
+    if keys:
+        k0 = keys[0]
+        bad = "bad key"
+        r = w.call("set_many", {**{k: b"stale" for k in keys}, bad: b"x"})
+        if r[0] != "exc":
+            P.append(("set_many-illegal-key-accepted", f"set_many with the key {bad!r} returned {r!r}"))
+        r = w.call("set_many", {k0: value_of(k0)})
+        check_routing(w, "set_many-after-refused-set_many", [k0], P)
+        r = w.call("get_many", list(keys) + [bad])
+        r = w.call("get_many", [k0])
+        check_routing(w, "get_many-after-refused-get_many", [k0], P)
+        if r != ("ret", {inner(k0): value_of(k0)}):
+            P.append(("get-after-refused-set_many", f"get_many([{k0!r}]) after a refused set_many and set_many({{{k0!r}: ...}}) returned {r!r}"))
+        r = w.call("delete_many", list(keys) + [bad], noreply=False)
+        r = w.call("delete_many", [k0], noreply=False)
+        check_routing(w, "delete_many-after-refused-delete_many", [k0], P)
+        w.call("set_many", {k: value_of(k) for k in keys})
     # 5. delete_many reaches every key's server
     r = w.call("delete_many", keys, noreply=False)
     if keys:
@@ -288,7 +307,7 @@ def run_alias(servers, prefix, pooling, order):
     return P
 
 
-def run_revival(servers, prefix, pooling, first_op, how, vi=-1):
+def run_revival(servers, prefix, pooling, first_op, how, vi=-1, outage_traffic=False):
     """A server comes back: `how`='dead' - it failed (retry_attempts=0: evicted at once), recovered, and
     dead_timeout elapsed; `how`='failed' - it failed once (retry_attempts=2), recovered, retry_timeout elapsed.
     The first operation afterwards is `first_op`; every operation on the same key must then agree."""
@@ -309,9 +328,13 @@ def run_revival(servers, prefix, pooling, first_op, how, vi=-1):
     other = next(f"ok{j}" for j in range(99) if rendezvous(names, f"ok{j}") != name_of(victim))
     w.net.failing[vaddr] = "refused"
     r = w.call("get", keys[0])  # the failure is noticed
+    if outage_traffic:
+        # the victim's keys are asked for while it is away (served elsewhere or answered as misses) ...
+        w.call("get", other)
+        w.call("get", keys[0])
     w.net.failing.pop(vaddr)
     w.net.clock.advance(7 if how == "dead" else 2)
-    ks = keys + [other]
+    ks = keys + [other]  # ... and the key asked for last is the one asked for first when it is back
     if first_op == "set_many":
         w.call("set_many", {k: value_of(k) for k in ks})
         check_routing(w, f"revival-{how}-set_many", ks, P)
@@ -338,6 +361,53 @@ def run_revival(servers, prefix, pooling, first_op, how, vi=-1):
     check_routing(w, f"revival-{how}-get_many", ks, P)
     r = w.call("incr", keys[1], 1, noreply=False)
     check_routing(w, f"revival-{how}-incr", [keys[1]], P)
+    return P
+
+
+def run_outage(servers, prefix, pooling, how, vi=-1):
+    """One server is away (evicted: `how`='dead'; inside its retry window: 'failed') and stays away.  Multi-key
+    reads must go on equalling the per-key gets - call after call on the long-lived client, for any subset of
+    the keys, and on another HashClient of the same process."""
+    w = World(servers, prefix, pooling)
+    w.hc.retry_attempts = 0 if how == "dead" else 2
+    w.hc.retry_timeout, w.hc.dead_timeout = 5, 60
+    P = []
+    names = w.names
+    victim = servers[vi]
+    keys, i = [], 0
+    while len(keys) < 2:
+        k = f"rk{i}"
+        i += 1
+        if rendezvous(names, k) == name_of(victim):
+            keys.append(k)
+    others = [f"ok{j}" for j in range(99) if rendezvous(names, f"ok{j}") != name_of(victim)][:2]
+    ks = keys + others  # the absent server's keys come first
+    w.call("set_many", {k: value_of(k) for k in ks})
+    w.net.failing[addr_of(victim)] = "refused"
+    w.call("get", keys[0])  # the failure is noticed
+
+    def compare(label, subset):
+        r = w.call("get_many", list(subset))
+        per = {}
+        for k in subset:
+            g = w.call("get", k)
+            if g[0] == "ret" and g[1] is not None:
+                per[k] = g[1]
+        if r != ("ret", per):
+            P.append((f"outage-{how}-get_many-differs-from-gets|{label}",
+                      f"{name_of(victim)} is away ({how}); {label}: get_many({list(subset)}) returned {r!r}, the per-key gets "
+                      f"give {per!r}"))
+
+    compare("first multi-key read", ks)
+    compare("second multi-key read", ks)
+    w.call("delete", others[0], noreply=False)
+    compare("after deleting a key of a healthy server", ks)
+    compare("only keys of the absent server", keys)
+    compare("keys in the opposite order", list(reversed(ks)))
+    w2 = World(servers, prefix, pooling)  # another client, other (empty) servers: nothing to be found
+    r = w2.call("get_many", list(ks))
+    if r != ("ret", {}):
+        P.append((f"outage-{how}-other-client-finds-keys", f"a second HashClient over empty servers: get_many({ks}) returned {r!r}"))
     return P
 
 
@@ -418,14 +488,26 @@ def _worker(job, chk):
         for how in ("dead", "failed"):
             for first_op in ("set_many", "get_many", "get", "set", "delete"):
                 for vi in range(len(servers)):  # every server of the set (TCP or UNIX socket) is the one that comes back
-                    P = run_revival(servers, prefix, pooling, first_op, how, vi)
+                    for traffic in (False, True):
+                        P = run_revival(servers, prefix, pooling, first_op, how, vi, traffic)
+                        chk.add()
+                        chk.outcome((si, prefix, pooling, "revival", how, first_op, vi, traffic))
+                        for sig, text in P:
+                            chk.violation(f"{sig}|pooling={pooling}" + ("|traffic-during-outage" if traffic else ""),
+                                          f"HashClient({[name_of(s) for s in servers]}, key_prefix={prefix!r}, use_pooling={pooling})"
+                                          f"{', keys used during the outage' if traffic else ''}: {text}",
+                                          {"servers": si, "prefix": prefix.decode(), "pooling": pooling, "keys": [], "alias": None,
+                                           "revival": [first_op, how, vi, traffic]})
+            for how in ("dead", "failed"):
+                for vi in range(len(servers)):
+                    P = run_outage(servers, prefix, pooling, how, vi)
                     chk.add()
-                    chk.outcome((si, prefix, pooling, "revival", how, first_op, vi))
+                    chk.outcome((si, prefix, pooling, "outage", how, vi))
                     for sig, text in P:
                         chk.violation(f"{sig}|pooling={pooling}",
                                       f"HashClient({[name_of(s) for s in servers]}, key_prefix={prefix!r}, use_pooling={pooling}): {text}",
                                       {"servers": si, "prefix": prefix.decode(), "pooling": pooling, "keys": [], "alias": None,
-                                       "revival": [first_op, how, vi]})
+                                       "outage": [how, vi]})
     if len(servers) >= 3:
         for ra in (0, 1, 2):
             for ie in (False, True):
@@ -456,6 +538,8 @@ def replay(detail):
     if detail.get("eviction"):
         P = run_eviction(servers, detail["prefix"].encode(), detail["pooling"], *detail["eviction"])
         return [t for _, t in P]
+    if detail.get("outage"):
+        return [t for _, t in run_outage(servers, prefix, detail["pooling"], *detail["outage"])]
     if detail.get("revival"):
         P = run_revival(servers, prefix, detail["pooling"], *detail["revival"])
     elif detail["alias"] is not None:
